@@ -1,0 +1,9 @@
+//go:build verif
+
+package monitor
+
+// VerifIdle reports whether the package-level monitor state is in its quiescent state.
+// It must only be called while no Layout call is in progress.
+func VerifIdle() bool {
+	return m == nil && p == 0 && a == ""
+}
